@@ -54,7 +54,7 @@ def funcs():
 
 
 def _mod(m, k):
-    from peptacular.proforma.proforma_parser import Mod
+    from peptacular.proforma.proforma_dataclasses import Mod  # where it is defined (not a re-export)
     return Mod(m, k)
 
 
